@@ -20,3 +20,28 @@
         assert!(kib * 1024 >= bytes);
         assert!(kib * 1024 <= bytes + bytes / 8 + 64 * 1024);
     }
+
+    /// C14.norm / C13.norm (D5): position renormalisation. The SIMD variants (AVX2/SSE4.1/NEON, outside the verifier) are
+    /// documented to compute max(p, off) - off; the scalar code - used for the unaligned prefix/suffix of the SIMD paths,
+    /// for every element on other targets and in no_std builds - must compute the same for every element, so that the
+    /// result does not depend on CPU features or on how the allocation happens to be aligned.
+    #[kani::proof]
+    #[kani::unwind(6)]
+    fn c14_normalize_scalar() {
+        let mut p: [i32; 4] = vk::any();
+        let off: i32 = vk::any();
+        vk::assume(off >= 0);
+        let before = p;
+        normalize_scalar(&mut p, off);
+        let mut i = 0;
+        while i < 4 {
+            let want = if before[i] > off { before[i] - off } else { 0 };
+            assert!(p[i] == want, "scalar renormalisation differs from the clamp-at-zero semantics of the SIMD paths");
+            i += 1;
+        }
+        // splitting the slice (as align_to_mut may) does not matter
+        let mut q = before;
+        normalize_scalar(&mut q[..1], off);
+        normalize_scalar(&mut q[1..], off);
+        assert!(q == p);
+    }
